@@ -108,10 +108,12 @@ CLAIMED = {
     "C11": dict(
         category="proof",
         text="JSONPath.finditer proved equal to the fold of resolve over the segments from the root node (fake root, filter context default, load_data); findall == values(finditer), match == first(finditer); the environment-level forms proved to delegate to compile().method with the same arguments. "
-        "Compound union/intersection semantics, Query and text/file inputs are bounded (monitors/c11.py).",
+        "Compound queries: findall / finditer / match and their async twins proved equal to the left-to-right union / intersection of the operands' results for ANY number of operands (fold rule over the operand loop, operands abstract); "
+        "that find-all is the values of find-iter for compound queries is the list lemma values_of_compound, re-checked by Lean on every run. JSON text and readable-file documents proved to give what the parsed value gives (simple and compound queries; a file is read once). "
+        "Query objects and the whole pipeline end to end are bounded (monitors/c11.py).",
         ref="5/C11",
-        technique=TECH + "fold rule for the segment pipeline, modular finditer contract; bounded differential run of all entry points",
-        note=TRUST + "json.loads is a library contract; compound paths (generator closures) are covered by the bounded part only.",
+        technique=TECH + "fold rule for the segment pipeline and the operand loop (branching step, element invariants), modular finditer contract, Lean-checked list lemma; bounded differential run of all entry points",
+        note=TRUST + "json.loads is an uninterpreted library contract (json_ok / json_loads); an operand's async methods are identified with their sync twins (proved per operand in C08); itertools.chain is a library contract.",
     ),
     "C13": dict(
         category="proof",
@@ -130,10 +132,12 @@ CLAIMED = {
     ),
     "C15": dict(
         category="proof",
-        text="addne / addap proved against their documented difference from add on the parent container (same heap model as C05). Construction routes, printed forms, reuse and independence of results are bounded (monitors/c15.py).",
+        text="addne / addap proved against their documented difference from add on the parent container (same heap model as C05). Construction: for each of the eight operation names, JSONPatch._build of the document form and the builder call are proved to leave patches that print the same list of dicts - "
+        "[{op: the name given, path/from: the pointer text, value}] - or both refuse with JSONPatchError; missing members and unknown names are refused; the caller's list and dicts are only read. Frames: no apply stores into the operation, its pointers, the patch or its operation list. "
+        "Value ownership (deep copies), repeated application and independence of results are bounded (monitors/c15.py).",
         ref="5/C15",
-        technique=TECH + "bounded differential check of construction routes and repeated application",
-        note=TRUST + "_build dispatch and value ownership are covered by the bounded part.",
+        technique=TECH + "relational equivalence of the two construction routes, write-frame postconditions from the store trace; bounded differential check of repeated application",
+        note=TRUST + "JSONPointer._parse / _encode are uninterpreted functions of the text (string laws bounded in C04/C14); copy.deepcopy is the identity on values, so aliasing between a patch's values and the document is only seen by the bounded part.",
     ),
     "C16": dict(
         category="proof",
@@ -150,11 +154,13 @@ CLAIMED = {
         note="Bounded only; labelled so in evidence. " + TRUST,
     ),
     "C18": dict(
-        category="other",
-        text="End-to-end check of the three sub-commands in-process and through real subprocesses over the option matrix against the library calls (monitors/c18.py).",
+        category="proof",
+        text="The three handlers (handle_path_command, handle_pointer_command, handle_patch_command) are proved, for every option combination, to be faithful front ends of an abstract library: on success exactly one json.dump of what the library returned, to args.output, indented exactly when --pretty, nothing on stderr; "
+        "on any class of the library's documented rejection families (and an undecodable document) SystemExit(1) after a message on stderr and nothing dumped, or - with --debug - the exception itself; the library is called with the options the command line gave. "
+        "The argparse definitions (file modes, option names), __main__, real files and encodings are bounded end to end (monitors/c18.py, in-process and through subprocesses).",
         ref="5/C18",
-        technique="bounded option-matrix enumeration (stand-in: argparse / file objects are outside the VC generator's reach)",
-        note="Bounded only; labelled so in evidence. " + TRUST,
+        technique=TECH + "postconditions over the effect trace of the real handler bodies with the library calls, json.dump/load, sys.exit and the streams as stated abstractions; bounded option-matrix enumeration end to end",
+        note=TRUST + "Which exception classes each library call can raise is the documented family (compile: syntax/type/index/name; findall: type; pointer.resolve: JSONPointerError and subclasses; patch.apply: JSONPatchError and subclasses; decoding: JSONDecodeError) - assumed here, decided for the library itself in C06/C07.",
     ),
     "C19": dict(
         category="other",
